@@ -401,32 +401,56 @@ Definition changed (P : prog) (d : decls) (old new : frame) : bool :=
               end
     end) new.
 
+(* ---------------------------------------------------------------- annotations for the correspondence *)
+Inductive ann := AReveal (l : nat) (t : ty) | ADead (l : nat).
+
+Definition is_noop (s : stmt) : bool :=
+  match s with SAssert (EBool false) => true | SAssert (EInt Z0) => true | SRaise _ _ => true | _ => false end.
+
+Fixpoint first_label (s : stmt) : option nat :=
+  match s with
+  | SLab l s1 => if is_noop s1 then None else Some l
+  | SSeq a b => match first_label a with Some l => Some l | None => first_label b end
+  | _ => None
+  end.
+
+Definition is_dead_of (l : nat) (a : ann) : bool :=
+  match a with ADead l' => Nat.eqb l l' | _ => false end.
+
+(* messages.iteration_dependent_errors: a statement analysed several times (loop passes, the two analyses of a
+   finally block) is reported unreachable only if it was unreachable every time; revealed types are united *)
+Definition combine_passes (passes : list (list ann)) : list ann :=
+  flat_map (filter (fun a => match a with AReveal _ _ => true | ADead _ => false end)) passes
+  ++ match passes with
+     | [] => []
+     | p0 :: rest =>
+         filter (fun a => match a with
+                          | ADead l => forallb (fun q => existsb (is_dead_of l) q) rest
+                          | _ => false
+                          end) p0
+     end.
+
 (* ---------------------------------------------------------------- statements *)
 Definition unwrap_frame (o : option frame) : frame := match o with Some f => f | None => [] end.
 
-(* one pass of accept_loop over `if c: body` starting from view V *)
-Definition loop_pass (P : prog) (sm : bool) (chk : cst -> res cst) (c : expr) (d : decls) (V : frame)
-  : res (decls * frame * tmap * bool) :=
-  bind (infer P sm d V c) (fun xc =>
-    bind (chk {| decl := d; cur := push_map (Some V) (fst (snd xc)) false |}) (fun r1 =>
-      let o1 := [cur r1; push_map (Some V) (snd (snd xc)) false] in
-      let E := merge P V o1 in
-      let o2 := [Some V; E] in
-      let V' := unwrap_frame (merge P V o2) in
-      if sm && negb (merge_cert P E o1 && merge_cert P (merge P V o2) o2) then Unsup
-      else Ok (decl r1, V', snd (snd xc), changed P (decl r1) V V'))).
+(* what leaves a statement other than by falling through: binder.allow_jump snapshots *)
+Record jumps := {
+  brk : list frame;       (* views at `break`      (options of the frame after the innermost loop) *)
+  cnt : list frame;       (* views at `continue`   (options of the loop-head frame) *)
+  exc : list frame;       (* views after every assignment (options of the handler frames of ALL enclosing try frames) *)
+  anns : list ann }.      (* revealed types / unreachable statements, for the correspondence only *)
 
-(* accept_loop: at most 4 passes (`iter > 3`), stop earlier when the binder did not change *)
-Fixpoint loop_iter (P : prog) (sm : bool) (chk : cst -> res cst) (c : expr) (n : nat) (d : decls) (V : frame)
-  : res (decls * frame * tmap * bool) :=
-  bind (loop_pass P sm chk c d V) (fun r =>
-    match r with
-    | (d', V', em, ch) =>
-        match n with
-        | S n' => if ch then loop_iter P sm chk c n' d' V' else Ok r
-        | O => Ok r
-        end
-    end).
+Definition j0 : jumps := {| brk := []; cnt := []; exc := []; anns := [] |}.
+Definition jcat (a b : jumps) : jumps :=
+  {| brk := brk a ++ brk b; cnt := cnt a ++ cnt b; exc := exc a ++ exc b; anns := anns a ++ anns b |}.
+Definition jexc (f : frame) (a : list ann) : jumps := {| brk := []; cnt := []; exc := [f]; anns := a |}.
+Definition jann (a : list ann) : jumps := {| brk := []; cnt := []; exc := []; anns := a |}.
+
+Definition top_reveal (P : prog) (sm : bool) (d : decls) (fr : frame) (e : expr) : list ann :=
+  match e with
+  | EReveal l e1 => match infer P sm d fr e1 with Ok x => [AReveal l (fst x)] | _ => [] end
+  | _ => []
+  end.
 
 Fixpoint decls_eqb (P : prog) (a b : decls) : bool :=
   match a, b with
@@ -435,7 +459,7 @@ Fixpoint decls_eqb (P : prog) (a b : decls) : bool :=
   | _, _ => false
   end.
 
-(* every entry of V survives unchanged (same type) in V' *)
+(* every entry of V survives (with a subtype) in V' *)
 Definition stable (P : prog) (V V' : frame) : bool :=
   forallb (fun kv => match lookup V' (fst kv) with
                      | Some (t', _) => is_subtype P t' (fst (snd kv))
@@ -450,24 +474,109 @@ Fixpoint set_decl (d : decls) (x : id) (t : ty) : decls :=
 
 Definition is_none_lit (e : expr) : bool := match e with ENone => true | _ => false end.
 
-(* strict = true additionally demands that the result of every loop analysis is a genuine
-   fixed point (one more pass changes nothing); mypy itself corresponds to strict = false *)
-Fixpoint check_stmt (P : prog) (strict : bool) (ret : ty) (st : cst) (s : stmt) {struct s} : res cst :=
+(* binding of a for-index / handler variable: an assignment when the name is declared, else its definition *)
+Definition bind_var (P : prog) (d : decls) (V : frame) (x : id) (t : ty) : res (decls * frame) :=
+  match lookup d x with
+  | Some dt => if is_subtype P t dt then Ok (d, update V x (t, true)) else Rej None
+  | None => Ok (d ++ [(x, t)], remove V x)
+  end.
+
+(* one pass of accept_loop; `pass d V` analyses the loop body once from view V and returns the declarations,
+   the view at the end of the body, what jumped out of it, and the else-map of the exit condition *)
+Definition passfn := decls -> frame -> res (decls * option frame * jumps * tmap).
+
+Definition loop_pass (P : prog) (sm : bool) (pass : passfn) (d : decls) (V : frame)
+  : res (decls * frame * jumps * tmap * bool) :=
+  bind (pass d V) (fun r =>
+    match r with
+    | (d', E, J, em) =>
+        let o2 := Some V :: map Some (cnt J) ++ [E] in
+        let mV := merge P V o2 in
+        if sm && negb (merge_cert P mV o2) then Unsup
+        else Ok (d', unwrap_frame mV, J, em, changed P d' V (unwrap_frame mV))
+    end).
+
+(* accept_loop: at most 4 passes (`iter > 3`), stop earlier when the binder did not change; break / exception
+   snapshots of all passes accumulate, annotations are kept per pass *)
+Fixpoint loop_iter (P : prog) (sm : bool) (pass : passfn) (n : nat) (d : decls) (V : frame)
+  (acc : jumps) (aps : list (list ann)) : res (decls * frame * jumps * tmap * list (list ann)) :=
+  bind (loop_pass P sm pass d V) (fun r =>
+    match r with
+    | (d', V', J, em, ch) =>
+        let acc' := jcat acc J in
+        let aps' := aps ++ [anns J] in
+        match n with
+        | S n' => if ch then loop_iter P sm pass n' d' V' acc' aps' else Ok (d', V', acc', em, aps')
+        | O => Ok (d', V', acc', em, aps')
+        end
+    end).
+
+Definition jump_opts (l : list frame) : list (option frame) := map Some l.
+
+Definition iter_item_ty (P : prog) (rng : bool) (te : ty) : res ty :=
+  if rng then (if is_subtype P te TInt then Ok TInt else Rej None)
+  else match te with
+       | TTuple (t0 :: ts) =>
+           match mk_union P (t0 :: ts) with
+           | TUnion _ => Unsup                (* mypy joins the items (possibly to `object`) *)
+           | t => Ok t
+           end
+       | TTuple [] => Unsup
+       | TStr => Unsup
+       | TUnion _ => Unsup
+       | _ => Rej None                         (* not iterable *)
+       end.
+
+(* the part of accept_loop shared by while and for: iterate the passes, then the else clause and the exit frames *)
+Definition check_loop_tail (P : prog) (strict : bool) (ret : ty) (fr : frame) (d : decls) (pass : passfn)
+  (chk_else : cst -> res (cst * jumps)) (use_exit_map : bool) : res (cst * jumps) :=
+  bind (loop_iter P strict pass 3 d fr j0 []) (fun r =>
+    match r with
+    | (d', V', J, em, aps) =>
+        if strict then
+          bind (loop_pass P strict pass d' V') (fun r2 =>
+            match r2 with
+            | (d2, V2, J2, em2, _) =>
+                let after := if use_exit_map then push_map (Some V') em2 true else Some V' in
+                bind (chk_else {| decl := d'; cur := after |}) (fun re =>
+                  let o := cur (fst re) :: jump_opts (brk J2) in
+                  let mg := merge P fr o in
+                  if decls_eqb P d2 d' && stable P V' V2 && view_le P d fr V' && merge_cert P mg o
+                  then Ok ({| decl := decl (fst re); cur := mg |},
+                           {| brk := brk (snd re); cnt := cnt (snd re); exc := exc J2 ++ exc (snd re);
+                              anns := combine_passes (aps ++ [anns J2]) ++ anns (snd re) |})
+                  else Unsup)
+            end)
+        else
+          let after := if use_exit_map then push_map (Some V') em true else Some V' in
+          bind (chk_else {| decl := d'; cur := after |}) (fun re =>
+            Ok ({| decl := decl (fst re); cur := merge P fr (cur (fst re) :: jump_opts (brk J)) |},
+                {| brk := brk (snd re); cnt := cnt (snd re); exc := exc J ++ exc (snd re);
+                   anns := combine_passes aps ++ anns (snd re) |}))
+    end).
+
+(* strict = true is the certifying mode: every merge is validated, every loop result must be a fixed point of
+   one more pass, `finally` must not be crossed by break/continue.  mypy itself corresponds to strict = false *)
+Fixpoint check_stmt (P : prog) (strict : bool) (ret : ty) (st : cst) (s : stmt) {struct s} : res (cst * jumps) :=
   match cur st with
-  | None => Ok st                                  (* unreachable code is not checked *)
+  | None => Ok (st, jann (match first_label s with Some l => [ADead l] | None => [] end))   (* unreachable: not checked *)
   | Some fr =>
     let d := decl st in
     match s with
-    | SPass => Ok st
+    | SPass => Ok (st, j0)
     | SLab l s1 => with_label l (check_stmt P strict ret st s1)
-    | SSeq a b => bind (check_stmt P strict ret st a) (fun st1 => check_stmt P strict ret st1 b)
-    | SExpr e => bind (infer P strict d fr e) (fun _ => Ok st)
+    | SSeq a b =>
+        bind (check_stmt P strict ret st a) (fun r1 =>
+          bind (check_stmt P strict ret (fst r1) b) (fun r2 => Ok (fst r2, jcat (snd r1) (snd r2))))
+    | SExpr e => bind (infer P strict d fr e) (fun _ => Ok (st, jann (top_reveal P strict d fr e)))
     | SDecl x t e =>
         (* the annotation is in force while the initialiser is checked; no narrowing on declaration *)
         let d1 := if in_dom x d then d else d ++ [(x, t)] in
         bind (infer P strict d1 fr e) (fun xe =>
           match lookup d1 x with
-          | Some t1 => if is_subtype P (fst xe) t1 then Ok {| decl := d1; cur := Some (remove fr x) |} else Rej None
+          | Some t1 => if is_subtype P (fst xe) t1
+                       then Ok ({| decl := d1; cur := Some (remove fr x) |}, jexc (remove fr x) (top_reveal P strict d1 fr e))
+                       else Rej None
           | None => Rej None
           end)
     | SAssign x e =>
@@ -475,7 +584,8 @@ Fixpoint check_stmt (P : prog) (strict : bool) (ret : ty) (st : cst) (s : stmt) 
           let te := fst xe in
           match lookup d x with
           | Some dt =>
-              if is_subtype P te dt then Ok {| decl := d; cur := Some (update fr x (te, true)) |}
+              if is_subtype P te dt
+              then Ok ({| decl := d; cur := Some (update fr x (te, true)) |}, jexc (update fr x (te, true)) (top_reveal P strict d fr e))
               else if is_none_lit e then Unsup else Rej None
           | None => Unsup          (* bound only in code the checker skipped *)
           end)
@@ -483,43 +593,96 @@ Fixpoint check_stmt (P : prog) (strict : bool) (ret : ty) (st : cst) (s : stmt) 
         (* checker.infer_variable_type: the defining assignment (re-)infers the declared type on every visit *)
         bind (infer P strict d fr e) (fun xe =>
           let te := fst xe in
+          let a := top_reveal P strict d fr e in
           if is_none_ty te || is_never te then Unsup      (* partial types *)
           else match lookup d x with
-               | None => Ok {| decl := d ++ [(x, te)]; cur := Some (remove fr x) |}
+               | None => Ok ({| decl := d ++ [(x, te)]; cur := Some (remove fr x) |}, jexc (remove fr x) a)
                | Some dt =>
-                   if strict then (if ty_same P te dt then Ok {| decl := d; cur := Some (remove fr x) |} else Unsup)
-                   else Ok {| decl := set_decl d x te; cur := Some (remove fr x) |}
+                   if strict then (if ty_same P te dt then Ok ({| decl := d; cur := Some (remove fr x) |}, jexc (remove fr x) a) else Unsup)
+                   else Ok ({| decl := set_decl d x te; cur := Some (remove fr x) |}, jexc (remove fr x) a)
                end)
     | SIf c s1 s2 =>
         bind (infer P strict d fr c) (fun xc =>
           bind (check_stmt P strict ret {| decl := d; cur := push_map (Some fr) (fst (snd xc)) false |} s1) (fun r1 =>
-            bind (check_stmt P strict ret {| decl := decl r1; cur := push_map (Some fr) (snd (snd xc)) false |} s2) (fun r2 =>
-              let mg := merge P fr [cur r1; cur r2] in
-              if strict && negb (merge_cert P mg [cur r1; cur r2]) then Unsup
-              else Ok {| decl := decl r2; cur := mg |})))
-    | SWhile c b =>
-        let chk := fun st0 => check_stmt P strict ret st0 b in
-        bind (loop_iter P strict chk c 3 d fr) (fun r =>
-          match r with
-          | (d', V', em, ch) =>
-              if strict then
-                bind (loop_pass P strict chk c d' V') (fun r2 =>
-                  match r2 with
-                  | (d2, V2, em2, _) =>
-                      let o := [push_map (Some V') em2 true] in
-                      let mg := merge P fr o in
-                      if decls_eqb P d2 d' && stable P V' V2 && view_le P d fr V' && merge_cert P mg o
-                      then Ok {| decl := d'; cur := mg |}
-                      else Unsup
-                  end)
-              else Ok {| decl := d'; cur := merge P fr [push_map (Some V') em true] |}
-          end)
+            bind (check_stmt P strict ret {| decl := decl (fst r1); cur := push_map (Some fr) (snd (snd xc)) false |} s2) (fun r2 =>
+              let o := [cur (fst r1); cur (fst r2)] in
+              let mg := merge P fr o in
+              if strict && negb (merge_cert P mg o) then Unsup
+              else Ok ({| decl := decl (fst r2); cur := mg |}, jcat (snd r1) (snd r2)))))
+    | SBreak => Ok ({| decl := d; cur := None |}, {| brk := [fr]; cnt := []; exc := []; anns := [] |})
+    | SContinue => Ok ({| decl := d; cur := None |}, {| brk := []; cnt := [fr]; exc := []; anns := [] |})
+    | SRaise c args =>
+        bind (infer P strict d fr (ENew c args)) (fun _ =>
+          if subclass P c exc_id then Ok ({| decl := d; cur := None |}, j0) else Rej None)
     | SReturn e =>
         bind (infer P strict d fr e) (fun xe =>
-          if is_subtype P (fst xe) ret then Ok {| decl := d; cur := None |} else Rej None)
+          if is_subtype P (fst xe) ret then Ok ({| decl := d; cur := None |}, jann (top_reveal P strict d fr e)) else Rej None)
     | SAssert e =>
         bind (infer P strict d fr e) (fun xe =>
-          Ok {| decl := d; cur := push_map (Some fr) (fst (snd xe)) true |})
+          Ok ({| decl := d; cur := push_map (Some fr) (fst (snd xe)) true |}, jann (top_reveal P strict d fr e)))
+    | SWhile c b els =>
+        let pass : passfn := fun d0 V =>
+          bind (infer P strict d0 V c) (fun xc =>
+            bind (check_stmt P strict ret {| decl := d0; cur := push_map (Some V) (fst (snd xc)) false |} b) (fun r1 =>
+              let o1 := [cur (fst r1); push_map (Some V) (snd (snd xc)) false] in
+              let E := merge P V o1 in
+              if strict && negb (merge_cert P E o1) then Unsup
+              else Ok (decl (fst r1), E, snd r1, snd (snd xc)))) in
+        check_loop_tail P strict ret fr d pass (fun st0 => check_stmt P strict ret st0 els) true
+    | SFor x rng e b els =>
+        if strict then Unsup else        (* not certified: see notes (stage 3 covers while / try / raise / break / continue) *)
+        bind (infer P strict d fr e) (fun xe =>
+          bind (iter_item_ty P rng (fst xe)) (fun it =>
+            let pass : passfn := fun d0 V =>
+              bind (bind_var P d0 V x it) (fun dv =>
+                bind (check_stmt P strict ret {| decl := fst dv; cur := Some (snd dv) |} b) (fun r1 =>
+                  Ok (decl (fst r1), cur (fst r1), jcat (jexc (snd dv) []) (snd r1), Some []))) in
+            check_loop_tail P strict ret fr d pass (fun st0 => check_stmt P strict ret st0 els) false))
+    | STry b c x h els =>
+        bind (check_stmt P strict ret st b) (fun rb =>
+          if negb (subclass P c exc_id) then Rej None else
+          (* handler frame: entry snapshot + one snapshot per assignment inside the try body *)
+          let oh := Some fr :: jump_opts (exc (snd rb)) in
+          let mh := merge P fr oh in
+          bind (match x with
+                | Some y => bind (bind_var P (decl (fst rb)) (unwrap_frame mh) y (TInst c)) (fun dv => Ok dv)
+                | None => Ok (decl (fst rb), unwrap_frame mh)
+                end) (fun dv =>
+          bind (check_stmt P strict ret {| decl := fst dv; cur := Some (snd dv) |} h) (fun rh =>
+          let hend := match x with Some y => match cur (fst rh) with Some f => Some (remove f y) | None => None end | None => cur (fst rh) end in
+          (* else frame: the state in which the body fell through *)
+          let oe := [cur (fst rb)] in
+          let me := merge P fr oe in
+          bind (check_stmt P strict ret {| decl := decl (fst rh); cur := me |} els) (fun re =>
+          let o := [cur (fst re); hend] in
+          let mg := merge P fr o in
+          if strict && negb (merge_cert P mh oh && merge_cert P me oe && merge_cert P mg o) then Unsup
+          else Ok ({| decl := decl (fst re); cur := mg |},
+                   jcat (snd rb) (jcat (jexc (snd dv) []) (jcat (snd rh) (jcat (match hend with Some f => jexc f [] | None => j0 end) (snd re)))))))))
+    | SFinally b fin =>
+        if strict then Unsup else        (* not certified: see notes *)
+        bind (check_stmt P strict ret st b) (fun rb =>
+          (* abnormal exits: everything that may have been assigned anywhere in the body *)
+          let oh := Some fr :: jump_opts (exc (snd rb)) in
+          let mh := merge P fr oh in
+          let oa := mh :: oh in
+          let ma := merge P fr oa in
+          bind (check_stmt P strict ret {| decl := decl (fst rb); cur := ma |} fin) (fun ra =>
+          (* normal exit *)
+          let on := [cur (fst rb)] in
+          let mn := merge P fr on in
+          bind (check_stmt P strict ret {| decl := decl (fst ra); cur := mn |} fin) (fun rn =>
+          if strict && negb (merge_cert P mh oh && merge_cert P ma oa && merge_cert P mn on
+                             && match brk (snd rb), cnt (snd rb) with [], [] => true | _, _ => false end)
+          then Unsup
+          else Ok (fst rn,
+                   {| brk := brk (snd rb) ++ brk (snd ra) ++ brk (snd rn);
+                      cnt := cnt (snd rb) ++ cnt (snd ra) ++ cnt (snd rn);
+                      exc := exc (snd rb) ++ exc (snd ra) ++ exc (snd rn);
+                      anns := anns (snd rb) ++ match mn with
+                                                | Some _ => combine_passes [anns (snd ra); anns (snd rn)]
+                                                | None => anns (snd ra)       (* the second analysis is skipped *)
+                                                end |}))))
     end
   end.
 
@@ -540,7 +703,17 @@ Fixpoint redecl_ok (P : prog) (seen : list id) (s : stmt) : option (list id) :=
   | SDecl x t _ => if mem_id x seen || negb (wf_ty P t) then None else Some (x :: seen)
   | SIf _ a b => match redecl_ok P seen a with Some s1 => redecl_ok P s1 b | None => None end
   | SSeq a b => match redecl_ok P seen a with Some s1 => redecl_ok P s1 b | None => None end
-  | SWhile _ b => redecl_ok P seen b
+  | SWhile _ b e => match redecl_ok P seen b with Some s1 => redecl_ok P s1 e | None => None end
+  | SFor x _ _ b e => match redecl_ok P (if mem_id x seen then seen else x :: seen) b with Some s1 => redecl_ok P s1 e | None => None end
+  | STry b _ x h e =>
+      match redecl_ok P seen b with
+      | Some s1 => match redecl_ok P (match x with Some y => y :: s1 | None => s1 end) h with
+                   | Some s2 => redecl_ok P s2 e
+                   | None => None
+                   end
+      | None => None
+      end
+  | SFinally b f => match redecl_ok P seen b with Some s1 => redecl_ok P s1 f | None => None end
   | SLab _ a => redecl_ok P seen a
   | _ => Some seen
   end.
@@ -563,7 +736,12 @@ Fixpoint stmt_reads (s : stmt) : list id :=
   match s with
   | SAssign _ e | SDef _ e | SDecl _ _ e | SReturn e | SAssert e | SExpr e => expr_vars e
   | SIf c a b => expr_vars c ++ stmt_reads a ++ stmt_reads b
-  | SWhile c b => expr_vars c ++ stmt_reads b
+  | SWhile c b e => expr_vars c ++ stmt_reads b ++ stmt_reads e
+  | SFor _ _ e b els => expr_vars e ++ stmt_reads b ++ stmt_reads els
+  | SRaise c args => expr_vars (ENew c args)
+  | STry b _ _ h e => stmt_reads b ++ stmt_reads h ++ stmt_reads e
+  | SFinally b f => stmt_reads b ++ stmt_reads f
+  | SBreak | SContinue => []
   | SSeq a b => stmt_reads a ++ stmt_reads b
   | SLab _ a => stmt_reads a
   | SPass => []
@@ -581,41 +759,88 @@ Definition true_lit (e : expr) : bool :=
 Definition false_lit (e : expr) : bool :=
   match e with EBool false => true | EInt z => Z.eqb z 0 | _ => false end.
 
-Definition join_def (a b : option (list id)) : option (list id) :=
-  match a, b with None, _ => b | _, None => a | Some x, Some y => Some (x ++ y) end.
+Definition dstate := (list id * bool)%type.      (* names possibly bound so far; branch skipped (after return/raise/...) *)
 
-Fixpoint ubd (st : option (list id)) (s : stmt) : option (option (list id)) :=
-  match st with
-  | None => Some None
-  | Some dd =>
-    match s with
-    | SAssign x e | SDef x e | SDecl x _ e =>
-        if reads_ok (x :: dd) e then Some (Some (x :: dd)) else None
-    | SExpr e => if reads_ok dd e then Some st else None
-    | SReturn e => if reads_ok dd e then Some None else None
-    | SAssert e => if reads_ok dd e then (if false_lit e then Some None else Some st) else None
-    | SPass => Some st
-    | SLab _ a => ubd st a
-    | SSeq a b => match ubd st a with Some st1 => ubd st1 b | None => None end
-    | SIf c a b =>
-        if reads_ok dd c then
-          match ubd st a, (if true_lit c then Some None else ubd st b) with
-          | Some ra, Some rb => Some (join_def ra rb)
+Definition join_def (a b : dstate) : dstate :=
+  if snd a then (if snd b then (fst a ++ fst b, true) else b)
+  else if snd b then a else (fst a ++ fst b, false).
+
+Definition skip (a : dstate) : dstate := (fst a, true).
+
+(* uses are checked also in a skipped branch; a skipped branch does not contribute to the join *)
+Fixpoint ubd (st : dstate) (s : stmt) : option dstate :=
+  let dd := fst st in
+  match s with
+  | SAssign x e | SDef x e | SDecl x _ e =>
+      if reads_ok (x :: dd) e then Some (x :: dd, snd st) else None
+  | SExpr e => if reads_ok dd e then Some st else None
+  | SReturn e => if reads_ok dd e then Some (skip st) else None
+  | SAssert e => if reads_ok dd e then (if false_lit e then Some (skip st) else Some st) else None
+  | SPass => Some st
+  | SLab _ a => ubd st a
+  | SSeq a b => match ubd st a with Some st1 => ubd st1 b | None => None end
+  | SIf c a b =>
+      if reads_ok dd c then
+        match ubd st a, (if true_lit c then Some (skip st) else ubd st b) with
+        | Some ra, Some rb => Some (join_def ra rb)
+        | _, _ => None
+        end
+      else None
+  | SWhile c b e =>
+      if reads_ok dd c then
+        match ubd st b with
+        | Some rb => ubd (if true_lit c then rb else join_def rb st) e
+        | None => None
+        end
+      else None
+  | SFor x _ e b els =>
+      if reads_ok dd e then
+        match ubd (x :: dd, snd st) b with
+        | Some rb => ubd (join_def rb st) els
+        | None => None
+        end
+      else None
+  | SBreak | SContinue => Some (skip st)
+  | SRaise c args => if reads_ok dd (ENew c args) then Some (skip st) else None
+  | STry b _ x h e =>
+      match ubd st b with
+      | Some rb =>
+          (* the handler may start from any point of the body; its variable is deleted afterwards *)
+          let hd0 := join_def rb st in
+          let hd := (match x with Some y => y :: fst hd0 | None => fst hd0 end, snd st) in
+          match ubd hd h, ubd rb e with
+          | Some rh, Some re =>
+              Some (join_def (match x with
+                              | Some y => (filter (fun z => negb (Nat.eqb z y)) (fst rh), snd rh)
+                              | None => rh
+                              end) re)
           | _, _ => None
           end
-        else None
-    | SWhile c b =>
-        if reads_ok dd c then
-          match ubd st b with
-          | Some rb => Some (if true_lit c then rb else join_def rb st)
-          | None => None
-          end
-        else None
-    end
+      | None => None
+      end
+  | SFinally b f =>
+      match ubd st b with
+      | Some rb => match ubd (fst (join_def rb st), snd st) f with
+                   | Some rf => Some (fst rf, snd rf || snd rb)
+                   | None => None
+                   end
+      | None => None
+      end
   end.
 
 Definition ubd_ok (bound : list id) (s : stmt) : bool :=
-  match ubd (Some bound) s with Some _ => true | None => false end.
+  match ubd (bound, false) s with Some _ => true | None => false end.
+
+Fixpoint jumps_ok (inloop : bool) (s : stmt) : bool :=
+  match s with
+  | SBreak | SContinue => inloop
+  | SIf _ a b | SSeq a b => jumps_ok inloop a && jumps_ok inloop b
+  | SWhile _ b e | SFor _ _ _ b e => jumps_ok true b && jumps_ok inloop e
+  | STry b _ _ h e => jumps_ok inloop b && jumps_ok inloop h && jumps_ok inloop e
+  | SFinally b f => jumps_ok inloop b && jumps_ok inloop f
+  | SLab _ a => jumps_ok inloop a
+  | _ => true
+  end.
 
 Fixpoint distinct (l : list id) : bool :=
   match l with [] => true | x :: r => negb (mem_id x r) && distinct r end.
@@ -631,7 +856,9 @@ Definition check_fun (P : prog) (strict : bool) (self : option id) (fd : fdecl) 
           | Some bound =>
               if negb (forallb (fun x => mem_id x bound) (stmt_reads (f_body fd))) then Rej None else
               if negb (ubd_ok (map fst ps) (f_body fd)) then Unsup else
-              bind (check_stmt P strict (f_ret fd) {| decl := ps; cur := Some [] |} (f_body fd)) (fun st' =>
+              if negb (jumps_ok false (f_body fd)) then Rej None else      (* break / continue outside a loop *)
+              bind (check_stmt P strict (f_ret fd) {| decl := ps; cur := Some [] |} (f_body fd)) (fun r' =>
+                let st' := fst r' in
                 match cur st' with
                 | None => Ok tt
                 | Some _ => if ty_is_none (f_ret fd) then Ok tt else Rej None   (* Missing return statement *)
@@ -763,84 +990,13 @@ Definition check_prog_gen (P : prog) (strict : bool) : bool :=
 Definition check_prog (P : prog) : bool := check_prog_gen P false.       (* mypy's verdict *)
 Definition check_prog_certified (P : prog) : bool := check_prog_gen P true.
 
-(* ---------------------------------------------------------------- annotations for the correspondence *)
-Inductive ann := AReveal (l : nat) (t : ty) | ADead (l : nat).
-
-Definition is_noop (s : stmt) : bool :=
-  match s with SAssert (EBool false) => true | SAssert (EInt Z0) => true | _ => false end.
-
-Fixpoint first_label (s : stmt) : option nat :=
-  match s with
-  | SLab l s1 => if is_noop s1 then None else Some l
-  | SSeq a b => match first_label a with Some l => Some l | None => first_label b end
-  | _ => None
-  end.
-
-Definition top_reveal (P : prog) (d : decls) (fr : frame) (e : expr) : list ann :=
-  match e with
-  | EReveal l e1 => match infer P false d fr e1 with Ok x => [AReveal l (fst x)] | _ => [] end
-  | _ => []
-  end.
-
-Definition is_dead_of (l : nat) (a : ann) : bool :=
-  match a with ADead l' => Nat.eqb l l' | _ => false end.
-
-(* messages.iteration_dependent_errors: a statement in a loop is reported unreachable only if it was
-   unreachable in every pass; revealed types of all passes are united (by the harness) *)
-Definition combine_passes (passes : list (list ann)) : list ann :=
-  flat_map (filter (fun a => match a with AReveal _ _ => true | ADead _ => false end)) passes
-  ++ match passes with
-     | [] => []
-     | p0 :: rest =>
-         filter (fun a => match a with
-                          | ADead l => forallb (fun q => existsb (is_dead_of l) q) rest
-                          | _ => false
-                          end) p0
-     end.
-
-Fixpoint annot (P : prog) (ret : ty) (st : cst) (s : stmt) {struct s} : list ann :=
-  match cur st with
-  | None => match first_label s with Some l => [ADead l] | None => [] end
-  | Some fr =>
-    let d := decl st in
-    match s with
-    | SLab _ s1 => annot P ret st s1
-    | SSeq a b => annot P ret st a ++
-                  match check_stmt P false ret st a with Ok st1 => annot P ret st1 b | _ => [] end
-    | SExpr e | SAssign _ e | SDef _ e | SReturn e | SAssert e => top_reveal P d fr e
-    | SDecl x t e => top_reveal P (if in_dom x d then d else d ++ [(x, t)]) fr e
-    | SIf c s1 s2 =>
-        match infer P false d fr c with
-        | Ok xc =>
-            let st1 := {| decl := d; cur := push_map (Some fr) (fst (snd xc)) false |} in
-            annot P ret st1 s1 ++
-            match check_stmt P false ret st1 s1 with
-            | Ok r1 => annot P ret {| decl := decl r1; cur := push_map (Some fr) (snd (snd xc)) false |} s2
-            | _ => []
-            end
-        | _ => []
-        end
-    | SWhile c b =>
-        let chk := fun st0 => check_stmt P false ret st0 b in
-        combine_passes
-        ((fix go (n : nat) (d0 : decls) (V : frame) : list (list ann) :=
-           match infer P false d0 V c with
-           | Ok xc =>
-               annot P ret {| decl := d0; cur := push_map (Some V) (fst (snd xc)) false |} b ::
-               match loop_pass P false chk c d0 V with
-               | Ok (d', V', _, ch) =>
-                   match n with S n' => if ch then go n' d' V' else [] | O => [] end
-               | _ => []
-               end
-           | _ => []
-           end) 3 d fr)
-    | SPass => []
-    end
-  end.
-
+(* ---------------------------------------------------------------- annotations of a program *)
 Definition annot_fun (P : prog) (self : option id) (fd : fdecl) : list ann :=
   let ps := match self with Some c => (self_id, TInst c) :: f_params fd | None => f_params fd end in
-  annot P (f_ret fd) {| decl := ps; cur := Some [] |} (f_body fd).
+  match check_stmt P false (f_ret fd) {| decl := ps; cur := Some [] |} (f_body fd) with
+  | Ok r => anns (snd r)
+  | _ => []
+  end.
 
 Definition annot_prog (P : prog) : list ann :=
   flat_map (fun cc => flat_map (fun mm => annot_fun P (Some (fst cc)) (snd mm)) (c_methods (snd cc))) (p_classes P)
